@@ -4,6 +4,7 @@
 package main
 
 import (
+	"bytes"
 	"compress/gzip"
 	"encoding/json"
 	"flag"
@@ -299,6 +300,24 @@ func genParse(c *genCtx) error {
 		genDepth(c.sw, c.tier, c.st)
 	}
 	docs := [][]byte{}
+	if c.want("digits") {
+		setCurrent("parse digit runs")
+		digitRunInputs(c.thorough(), func(d []byte) { writeDoc(po, c.sw, &j, d, nil, c.st) })
+		// whitespace runs before and after values
+		for k := 0; k <= 17; k++ {
+			ws := bytes.Repeat([]byte(" "), k)
+			for b := 0; b < 256; b++ {
+				for _, v := range []string{"1", "[]", `"s"`, "null"} {
+					for _, m := range []int{0, 7, 8, 9} {
+						d := append(append(append(append([]byte{}, v...), ws...), byte(b)), bytes.Repeat([]byte(" "), m)...)
+						writeDoc(po, c.sw, &j, d, nil, c.st)
+					}
+					d := append(append(append([]byte{}, ws...), byte(b)), v...)
+					writeDoc(po, c.sw, &j, append(d, "        "...), nil, c.st)
+				}
+			}
+		}
+	}
 	if c.want("walks") {
 		docs = append(docs, loadWalks(c.walksPath)...)
 	}
